@@ -23,6 +23,9 @@ import traceback
 import fnmatch
 
 VERIF = os.path.dirname(os.path.dirname(os.path.abspath(__file__)))
+# evidence and replay files of a run against a scratch copy of the library (QUARA_REPO set by tools/try_seed.sh) go to VERIF_OUT,
+# so that /verif/evidence always describes a run against /repo itself
+OUTDIR = os.environ.get("VERIF_OUT") or VERIF
 EVIDENCE_SCHEMA = "/root/.vp/EVIDENCE.schema.json"
 
 
@@ -215,7 +218,7 @@ def run_check(mod, tier, seed, nproc=None):
     # report
     for sig, e in sorted(known_hits.items()):
         print("KNOWN-FINDING: property=%s %s [%d case(s), sig=%s]" % (prop, e["k"]["what"], e["n"], sig))
-    rdir = os.path.join(VERIF, "replays", prop)
+    rdir = os.path.join(OUTDIR, "replays", prop)
     if os.path.isdir(rdir):
         for fn in os.listdir(rdir):
             if fn.endswith(".json"):
@@ -269,8 +272,8 @@ def run_check(mod, tier, seed, nproc=None):
         "coverage": cov, "assumptions": list(getattr(mod, "ASSUMPTIONS", [])),
         "wall_s": round(wall, 3), "violations": len(violations),
     }
-    os.makedirs(os.path.join(VERIF, "evidence"), exist_ok=True)
-    epath = os.path.join(VERIF, "evidence", "%s.json" % prop)
+    os.makedirs(os.path.join(OUTDIR, "evidence"), exist_ok=True)
+    epath = os.path.join(OUTDIR, "evidence", "%s.json" % prop)
     with open(epath, "w") as fh:
         json.dump(ev, fh, indent=1, sort_keys=True, default=str)
     validate_evidence(epath)
